@@ -23,6 +23,7 @@ inductive Start : State → Prop
 
 /-! ## 1. invariants over ALL call histories (any length) -/
 
+set_option maxHeartbeats 4000000 in
 /-- one step preserves the invariant (both layers, every API kind, every argument class) -/
 theorem inv_step (cfg : Cfg) (s : State) (c : Call) (h : ModeInv s) : ModeInv (step cfg s c).st := by
   by_cases ho : s.opened = true
@@ -33,10 +34,7 @@ theorem inv_step (cfg : Cfg) (s : State) (c : Call) (h : ModeInv s) : ModeInv (s
     clear h ho
     cases hc
     all_goals (simp only [] at bp ab ro)
-    all_goals cases c
-    all_goals try cases ‹PostKind›
-    all_goals try mode_simp
-    all_goals first | exact inv_closed | (constructor <;> grind)
+    all_goals mode_all ((try mode_simp) <;> first | exact inv_closed | (constructor <;> grind))
   · have : s.opened = false := by simpa using ho
     have hs := h.cl this
     subst hs
@@ -134,6 +132,7 @@ theorem driver_asserts_hold (cfg : Cfg) (s0 : State) (h0 : Start s0) (cs : List 
 
 /-! ## 2. one step against the documented rule table -/
 
+set_option maxHeartbeats 4000000 in
 /-- `matches_spec` (source with the missing return of ncmpi_fill_var_rec put back): in every
     reachable state, for every API kind and argument class, the two-layer model returns exactly
     the code the documented precedence table selects, moves to exactly the documented next mode,
@@ -144,11 +143,7 @@ theorem matches_spec (s : State) (h : ModeInv s) (c : Call) :
   by_cases ho : s.opened = true
   · have hc := core_of_inv s h ho
     clear h
-    cases hc <;> cases c
-    all_goals try cases ‹PostKind›
-    all_goals try mode_simp
-    all_goals try grind
-    all_goals try ((repeat' split) <;> simp_all)
+    cases hc <;> mode_all (first | (mode_simp; done) | (mode_simp; grind) | (mode_simp; (repeat' split) <;> simp_all))
   · have : s.opened = false := by simpa using ho
     have hs := h.cl this
     subst hs
@@ -224,6 +219,7 @@ theorem refines_all_histories (s0 : State) (h0 : Start s0) (cs : List Call) :
 
 /-! ## 3. rejected calls have no effect; only mode calls change the mode -/
 
+set_option maxHeartbeats 4000000 in
 /-- `rejected_is_noop`: a call answered with a mode / permission / bad-id rejection leaves both
     flag words, the queues and the buffer untouched, reaches no function that writes the file and
     does not delete it.  Holds for the source as it is and for the repaired one. -/
@@ -233,29 +229,60 @@ theorem rejected_is_noop (cfg : Cfg) (s : State) (h : ModeInv s) (c : Call)
   by_cases ho : s.opened = true
   · have hc := core_of_inv s h ho
     clear h ho
-    cases hc <;> cases c
-    all_goals try cases ‹PostKind›
-    all_goals (revert hr; mode_simp)
-    all_goals try grind
+    cases hc <;> mode_all (first | (revert hr; mode_simp; done) | (revert hr; mode_simp; grind))
   · have : s.opened = false := by simpa using ho
     simp [step, this, ret]
 
-/-- stronger: any call that returns an error, other than close and abort (which release the ncid
-    whatever they return), has no effect at all -/
+/-- The one place where the number of processes matters: a *collective varn* call whose argument
+    tests fail still joins the collective wait with a null request id, and `extract_reqs` then
+    completes the caller's single pending request (defect F4 of property C02 seen from here). -/
+def flushQuirk (cfg : Cfg) (s : State) : Call → Bool
+  | .rw _ true _ _ _ true => cfg.multi && (s.nGet == 0 && s.nPut == 1 || s.nPut == 0 && s.nGet == 1)
+  | _ => false
+
+set_option maxHeartbeats 4000000 in
+/-- stronger than `rejected_is_noop`: any call that returns an error, other than close and abort
+    (which release the ncid whatever they return), has no effect at all — on one process always,
+    on several except in the `flushQuirk` situation -/
 theorem error_is_noop (cfg : Cfg) (s : State) (h : ModeInv s) (c : Call)
-    (hc : c ≠ .close ∧ c ≠ .abort) (he : (step cfg s c).err ≠ .noerr) :
+    (hc : c ≠ .close ∧ c ≠ .abort) (hq : flushQuirk cfg s c = false) (he : (step cfg s c).err ≠ .noerr) :
     (step cfg s c).st = s ∧ (step cfg s c).wr = false ∧ (step cfg s c).del = false := by
   by_cases ho : s.opened = true
   · have hcore := core_of_inv s h ho
     clear h ho
-    cases hcore <;> cases c
-    all_goals try cases ‹PostKind›
-    all_goals first | (exfalso; exact hc.1 rfl) | (exfalso; exact hc.2 rfl) | skip
-    all_goals (revert he; mode_simp)
-    all_goals try grind
+    cases hcore <;> mode_all (first | (exfalso; exact hc.1 rfl) | (exfalso; exact hc.2 rfl) | (revert he hq; simp only [flushQuirk]; mode_simp; done) | (revert he hq; simp only [flushQuirk]; mode_simp; grind))
   · have : s.opened = false := by simpa using ho
     simp [step, this, ret]
 
+/-- the full statement for several processes is false of the code … -/
+def error_is_noop_multi_Statement : Prop :=
+  ∀ (s : State), ModeInv s → ∀ c : Call, c ≠ .close ∧ c ≠ .abort →
+    (step Cfg.pinnedMulti s c).err ≠ .noerr →
+    (step Cfg.pinnedMulti s c).st = s ∧ (step Cfg.pinnedMulti s c).wr = false
+
+/-- … witness: one pending iput, then `ncmpi_put_varn_int_all` with varid NC_GLOBAL on 2 processes:
+    returns NC_EGLOBAL, and the pending iput has been written to the file -/
+theorem error_is_noop_multi_counterexample : ¬ error_is_noop_multi_Statement := by
+  intro h
+  have := h (run Cfg.pinnedMulti (openedFile true true) [.post .iput .fixed false false])
+    (inv_run _ _ _ (inv_opened true true)) (.rw true true .global false false true) (by decide) (by decide)
+  revert this
+  decide
+
+set_option maxHeartbeats 4000000 in
+/-- on several processes the model still meets the documented table everywhere else -/
+theorem matches_spec_multi (s : State) (h : ModeInv s) (c : Call) (hq : flushQuirk ⟨true, true⟩ s c = false) :
+    absOut (step ⟨true, true⟩ s c) = specStep (abs s) c := by
+  by_cases ho : s.opened = true
+  · have hc := core_of_inv s h ho
+    clear h
+    cases hc <;> mode_all (first | (revert hq; simp only [flushQuirk]; mode_simp; done) | (revert hq; simp only [flushQuirk]; mode_simp; grind) | (revert hq; simp only [flushQuirk]; mode_simp; (repeat' split) <;> simp_all))
+  · have : s.opened = false := by simpa using ho
+    have hs := h.cl this
+    subst hs
+    simp [step, specStep, abs, absOut, ret, aclosed, closed]
+
+set_option maxHeartbeats 4000000 in
 /-- `mode_changes_only_by`: apart from enddef, _enddef, redef, begin/end_indep_data, close and abort
     no API touches the mode bits of either layer, the open/closed status or `ncp->old`. -/
 theorem mode_changes_only_by (cfg : Cfg) (s : State) (h : ModeInv s) (c : Call) (hm : isModeCall c = false) :
@@ -264,11 +291,7 @@ theorem mode_changes_only_by (cfg : Cfg) (s : State) (h : ModeInv s) (c : Call) 
   by_cases ho : s.opened = true
   · have hcore := core_of_inv s h ho
     clear h ho
-    cases hcore <;> cases c
-    all_goals try cases ‹PostKind›
-    all_goals first | (exfalso; revert hm; decide) | (exfalso; simp [isModeCall] at hm; done) | skip
-    all_goals mode_simp
-    all_goals try grind
+    cases hcore <;> mode_all (first | (exfalso; revert hm; decide) | (exfalso; simp [isModeCall] at hm; done) | (mode_simp; done) | (mode_simp; grind))
   · have : s.opened = false := by simpa using ho
     simp [step, this, ret]
 
@@ -292,11 +315,11 @@ example : ModeInv (run Cfg.pinned (openedFile true true) [.beginIndep, .redef, .
 example : (run Cfg.pinned (created true) [.enddef, .beginIndep, .redef]).d = ⟨false, true, true, true⟩ ∧
           (run Cfg.pinned (created true) [.enddef, .beginIndep, .redef]).n = ⟨false, true, false, false⟩ := by decide
 example : (step Cfg.pinned (run Cfg.pinned (created true) [.enddef, .beginIndep, .redef])
-            (.rw true true .fixed false false)).err = .eindefine := by decide
+            (.rw true true .fixed false false false)).err = .eindefine := by decide
 -- precedence: read-only file in collective mode, independent put of text into an int variable at a bad start
-example : (step Cfg.pinned (openedFile false true) (.rw true false .fixed true true)).err = .eperm := by decide
-example : (step Cfg.pinned (openedFile true true) (.rw true false .fixed true true)).err = .enotindep := by decide
-example : (step Cfg.pinned (run Cfg.pinned (openedFile true true) [.beginIndep]) (.rw true false .fixed true true)).err
+example : (step Cfg.pinned (openedFile false true) (.rw true false .fixed true true false)).err = .eperm := by decide
+example : (step Cfg.pinned (openedFile true true) (.rw true false .fixed true true false)).err = .enotindep := by decide
+example : (step Cfg.pinned (run Cfg.pinned (openedFile true true) [.beginIndep]) (.rw true false .fixed true true false)).err
             = .echar := by decide
 -- a rejection in the sense of `rejected_is_noop`, and a call `matches_spec_partial` applies to
 example : isRejection (step Cfg.pinned (openedFile false true) .redef).err = true := by decide
@@ -312,7 +335,8 @@ def obligations : List String := [
   "one_mode", "one_mode_dispatcher_counterexample", "driver_asserts_hold",
   "matches_spec", "matches_spec_pinned_counterexample", "matches_spec_pinned_counterexample_indep",
   "matches_spec_pinned_counterexample_ub", "pinned_eq_repaired", "matches_spec_partial",
-  "refines_all_histories", "rejected_is_noop", "error_is_noop", "mode_changes_only_by",
+  "refines_all_histories", "rejected_is_noop", "error_is_noop", "error_is_noop_multi_counterexample",
+  "matches_spec_multi", "mode_changes_only_by",
   "spec_mode_changes_only_by"
 ]
 end PnVerif.Props.C14
